@@ -118,12 +118,12 @@ def pDescribe : P (Core × Core × List Report) := fun r => do
   pure ((p, p', rs), r)
 
 def failingClauses (c : DescribeClauses) : List String :=
-  [("nonempty", c.nonempty), ("vg", c.vg), ("ids", c.ids), ("shape", c.shape), ("wf", c.wf),
+  [("nonempty", c.nonempty), ("vg", c.vg), ("ids", c.ids), ("wf", c.wf),
    ("partsDistinct", c.partsDistinct), ("created", c.created), ("updated", c.updated), ("deleted", c.deleted),
    ("descrComplete", c.descrComplete), ("descrRemoved", c.descrRemoved), ("flat", c.flat),
    ("stateSound", c.stateSound), ("stateNewer", c.stateNewer), ("stateComplete", c.stateComplete),
    ("stateRemoved", c.stateRemoved), ("deletedStatesGone", c.deletedStatesGone), ("cstateSound", c.cstateSound),
-   ("cstateNewer", c.cstateNewer), ("cstateComplete", c.cstateComplete), ("cstateRemoved", c.cstateRemoved),
+   ("cstateNewer", c.cstateNewer), ("cstateComplete", c.cstateComplete), ("cstateRemoved", c.cstateRemoved), ("cstateStable", c.cstateStable),
    ("ctxUpdateLists", c.ctxUpdateLists)].filterMap (fun (n, b) => if b then none else some n)
 
 /-! ### canonical output -/
